@@ -30,6 +30,11 @@ import (
 //   - the loop has no other exit: the block after L is entered only from L's head (no `break`);
 //   - the block after L (its normal exit) dominates the real apply.
 //
+// The obligation holds for EVERY Apply on the world parameter, wherever it stands: one outside
+// the real loop (a shortcut such as `if len(m) == 1 { return m[0].Apply(w) }` placed before the
+// canary loop) is a violation unless the exit of a canary loop dominates it; when it does, the
+// receiver must visibly be an element `parts[i]` of the canaried expression (otherwise undecided).
+//
 // Accepted idioms: `if _, err := c.Apply(canary); err != nil { return … }` and the split form
 // `_, err := c.Apply(canary); if err != nil { return … }`.
 func init() {
@@ -400,23 +405,29 @@ func iCanaryFunc(c *Ctx, t *iTypes, k *iClassifier, p *packages.Package, fd *ast
 		switch {
 		case inLiteral[r.call]:
 			ob.Status, ob.Detail = Undecided, what+" is inside a function literal: idiom not known"
-		case X == nil:
-			ob.Status, ob.Detail = Undecided, what+" is not called on the value variable of a range loop over the parts: idiom not known"
 		case !found:
 			ob.Status, ob.Detail = Undecided, what+" was not found in the control-flow graph"
 		default:
-			if id, ok := ast.Unparen(X).(*ast.Ident); ok && assigned[info.ObjectOf(id)] > 0 {
-				ob.Status, ob.Detail = Violation, what+": the parts "+id.Name+" are reassigned in the function, so the canary and the real loop need not see the same parts"
-				break
-			}
+			// Every Apply on the real world, wherever it stands, must be dominated by the normal exit
+			// of a canary loop; an Apply outside the real loop (a shortcut such as
+			// `if len(m) == 1 { return m[0].Apply(w) }`) is judged in the same way.
 			var reasons []string
-			okLoop := ""
+			okLoop, okParts := "", ast.Expr(nil)
 			for _, cc := range other {
 				if cc.loop == nil || cc.loop == r.loop {
 					continue
 				}
-				if why := checkLoop(cc, X); why != "" {
+				P := cc.loop.X
+				if X != nil && !sameExpr(info, P, X) {
+					reasons = append(reasons, "the loop at "+c.Position(cc.loop.Pos())+" ranges over "+types.ExprString(P)+", not over "+types.ExprString(X))
+					continue
+				}
+				if why := checkLoop(cc, P); why != "" {
 					reasons = append(reasons, why)
+					continue
+				}
+				if id, ok := ast.Unparen(P).(*ast.Ident); ok && assigned[info.ObjectOf(id)] > 0 {
+					reasons = append(reasons, "the parts "+id.Name+" are reassigned in the function, so the canary loop at "+c.Position(cc.loop.Pos())+" and the real apply need not see the same parts")
 					continue
 				}
 				done := blockOf(cfg.KindRangeDone, cc.loop)
@@ -424,18 +435,33 @@ func iCanaryFunc(c *Ctx, t *iTypes, k *iClassifier, p *packages.Package, fd *ast
 					reasons = append(reasons, "the exit of the canary loop at "+c.Position(cc.loop.Pos())+" does not dominate it (the real world can be changed before or without the canary pass)")
 					continue
 				}
-				okLoop = c.Position(cc.loop.Pos())
+				okLoop, okParts = c.Position(cc.loop.Pos()), P
 			}
-			if okLoop != "" {
-				ob.Status = OK
-				ob.Detail = what + " is dominated by the normal exit of the canary loop at " + okLoop + ", which applies every part of " + types.ExprString(X) + " to a fresh overlay and returns on error"
-			} else {
+			switch {
+			case okLoop == "":
 				ob.Status = Violation
 				if len(reasons) == 0 {
 					reasons = []string{"no loop applies the parts to a canary overlay first"}
 				}
 				ob.Detail = what + " is not protected by a canary pass: " + reasons[0]
 				ob.Path = reasons
+			case X != nil:
+				ob.Status = OK
+				ob.Detail = what + " is dominated by the normal exit of the canary loop at " + okLoop + ", which applies every part of " + types.ExprString(X) + " to a fresh overlay and returns on error"
+			default:
+				// outside a loop over the parts: the receiver must visibly be one of the canaried parts
+				sel, _ := ast.Unparen(r.call.Fun).(*ast.SelectorExpr)
+				var ix *ast.IndexExpr
+				if sel != nil {
+					ix, _ = ast.Unparen(sel.X).(*ast.IndexExpr)
+				}
+				if ix != nil && sameExpr(info, ix.X, okParts) {
+					ob.Status = OK
+					ob.Detail = what + " applies an element of " + types.ExprString(okParts) + " and is dominated by the normal exit of the canary loop at " + okLoop
+				} else {
+					ob.Status = Undecided
+					ob.Detail = what + " is dominated by the canary loop at " + okLoop + ", but the rule cannot tell that its receiver is one of the parts " + types.ExprString(okParts) + " the canary accepted"
+				}
 			}
 		}
 		out = append(out, ob)
